@@ -142,6 +142,35 @@ def check_item(rec):
     return sorted(set(fails))
 
 
+def compiled_arrays(out):
+    """the dimension-specialised compiled variants: at zero, and element by element on arrays of any shape (run once, in
+    this process: every new argument type costs a compilation)"""
+    core.setup_repo_import()
+    from droplets.tools import spherical as S
+
+    for dim in (1, 2, 3):
+        for r in (0.37, 2.5e3):
+            fails = []
+            # the dimension-specialised compiled variants: at zero, and element by element on arrays of any shape
+            cv, cr, cs_ = S.make_volume_from_radius_compiled(dim), S.make_radius_from_volume_compiled(dim), S.make_surface_from_radius_compiled(dim)
+            try:
+                if cv(0.0) != 0 or cr(0.0) != 0 or cs_(0.0) != S.surface_from_radius(0.0, dim):
+                    fails.append("compiled variants at zero differ from the closed form")
+                for shape in ((), (3,), (2, 2)):
+                    rr = np.array(r * np.array([1.0, 0.0, 2.0, 0.5])[: int(np.prod(shape)) or 1]).reshape(shape)
+                    for nm, f_c, f_p in (("volume_from_radius", cv, S.volume_from_radius), ("surface_from_radius", cs_, S.surface_from_radius),
+                                         ("radius_from_volume", cr, S.radius_from_volume)):
+                        xx = rr if nm != "radius_from_volume" else S.volume_from_radius(rr, dim)
+                        got, ref = np.asarray(f_c(xx)), np.asarray(f_p(xx, dim))
+                        if got.shape != ref.shape or not np.allclose(got, ref, rtol=1e-13, atol=0):
+                            fails.append(f"compiled {nm} on an array of shape {shape} differs from the closed form")
+            except Exception as exc:  # noqa: BLE001
+                fails.append(f"compiled variant raised {type(exc).__name__} on a float / array argument")
+            out.evaluations += 1
+            if fails:
+                out.violation({"compiled_arrays": {"dim": dim, "r": r}, "fails": sorted(set(fails))})
+
+
 def real_round_trips(seed, count):
     """round trips, setter/getter and bounding boxes on the real functions and droplets"""
     core.setup_repo_import()
@@ -270,6 +299,7 @@ def run(out: core.Outcome) -> None:
         for b in bad:
             out.violation(b)
     out.exhaustive = True
+    compiled_arrays(out)
     out.explanation = out.rule
     out.assumptions = [
         "the identities are decided symbolically (exponent vectors) by TLC; floating-point agreement is sampled",
